@@ -200,27 +200,7 @@ class FromIterableValidated:
 
 # ------------------------------------------------------------------------- C19
 CS = "permuta.enumeration_strategies.core_strategies:"
-GHOST_IMPL["SKEWDEC"] = lambda p: int(bool(type(p)(p).is_skew_decomposable()))
-GHOST_IMPL["SUMDEC"] = lambda p: int(bool(type(p)(p).is_sum_decomposable()))
-
-
-@contract("Perm.is_skew_decomposable", params={"self": "Perm"}, returns="bool", props=("C19",), assumed=True)
-class SkewDecomposableAssumed:
-    # ASSUMED (set equality needs a counting argument; the bounded layer C10 decides it)
-    def requires(c, self):
-        return c.true()
-
-    def ensures(c, self, result):
-        return c.iff(result, c.ghost("SKEWDEC", self) == 1)
-
-
-@contract("Perm.is_sum_decomposable", params={"self": "Perm"}, returns="bool", props=("C19",), assumed=True)
-class SumDecomposableAssumed:
-    def requires(c, self):
-        return c.true()
-
-    def ensures(c, self, result):
-        return c.iff(result, c.ghost("SUMDEC", self) == 1)
+# Perm.is_sum_decomposable / is_skew_decomposable: verified, see contracts/perm_more.py
 
 
 @contract(CS + "fstrip", params={"perm": "Perm"}, returns="Seq", props=("C19",))
